@@ -66,8 +66,12 @@ impl BindgenContext {
 impl FieldData { pub fn name(&self) -> Option<Name> { self.name } pub fn offset(&self) -> Option<usize> { self.offset } }
 #[derive(Clone, Copy)] pub struct BitfieldUnit;
 #[derive(Clone, Copy)] pub enum Field { DataMember(FieldData), Bitfields(BitfieldUnit) }
-pub struct CompInfo { pub fields: [Field; CAP], pub n: usize, pub fwd: bool }
-impl CompInfo { pub fn fields(&self) -> &[Field] { &self.fields[..self.n] } pub fn is_forward_declaration(&self) -> bool { self.fwd } }
+pub struct CompInfo { pub fields: [Field; CAP], pub n: usize, pub fwd: bool, pub unknown_attr: bool, pub packed_attr: bool, pub has_own_virtual: bool, pub is_union: bool }
+impl CompInfo {
+    pub fn fields(&self) -> &[Field] { &self.fields[..self.n] } pub fn is_forward_declaration(&self) -> bool { self.fwd }
+    // further accessors of the real CompInfo, so that a condition added to the statement is decided rather than failing to compile
+    pub fn found_unknown_attr(&self) -> bool { self.unknown_attr } pub fn packed_attr(&self) -> bool { self.packed_attr } pub fn has_own_virtual_method(&self) -> bool { self.has_own_virtual } pub fn is_union(&self) -> bool { self.is_union }
+}
 impl CompInfo {
     /// the statement `if ctx.options().layout_tests && !self.is_forward_declaration() { .. }` of CompInfo::codegen, with its free variables as parameters
     pub fn layout_block(&self, ctx: &BindgenContext, result: &mut Vec<TokenStream>, layout: Option<Layout>, is_opaque: bool, canonical_ident: Ident) {
@@ -101,7 +105,7 @@ mod proofs {
     fn composite_assertion_block_is_complete_and_right() {
         let ctx = BindgenContext { o: Options { layout_tests: kani::any(), f: Features { offset_of: kani::any() } }, uses_tparams: false };
         let n: usize = kani::any(); kani::assume(n <= CAP);
-        let comp = CompInfo { fields: [any_field(), any_field(), any_field()], n, fwd: kani::any() };
+        let comp = CompInfo { fields: [any_field(), any_field(), any_field()], n, fwd: kani::any(), unknown_attr: kani::any(), packed_attr: kani::any(), has_own_virtual: kani::any(), is_union: kani::any() };
         let layout = any_layout(); let is_opaque: bool = kani::any();
         let me = Ident(kani::any()); kani::assume(me.0 < 200);
         let mut result = Vec::new();
